@@ -35,13 +35,17 @@ Fixpoint list_eqb {A} (eqb : A -> A -> bool) (a b : list A) : bool :=
 Definition outcome_code (o : outcome tables) : nat :=
   match o with Built _ => 0 | GenErr => 1 | BuildErr => 2 | Unsupported => 9 end.
 
-(* the quantified space: non-empty, pairwise distinct names (also after lower-casing when the
-   enum is generated case-insensitively), values representable in the underlying type *)
-Definition in_domain (d : defn) (o : opts) : bool :=
+(* the quantified space: non-empty, pairwise distinct names, values representable in the
+   underlying type *)
+Definition in_domain_names (d : defn) : bool :=
   match d_consts d with [] => false | _ => true end
   && str_nodupb (map c_name (d_consts d))
-  && forallb (fun c => in_range (d_ty d) (c_val c)) (d_consts d)
-  && (negb (o_ci o) || str_nodupb (map (fun c => to_lower (c_name c)) (d_consts d))).
+  && forallb (fun c => in_range (d_ty d) (c_val c)) (d_consts d).
+(* -caseInsensitive with names that differ only by case: the generator must refuse (near-miss
+   stream of C04: expected observable = generator error, nothing written) *)
+Definition ci_collision (d : defn) (o : opts) : bool :=
+  o_ci o && negb (str_nodupb (map (fun c => to_lower (c_name c)) (d_consts d))).
+Definition in_domain (d : defn) (o : opts) : bool := in_domain_names d && negb (ci_collision d o).
 
 (* documented acceptance rules of the generator, over the definition:
    trait names on the line of the lowest value; a line with trait cells has (or shares its value
@@ -57,6 +61,19 @@ Definition traits_in_domain (d : defn) : bool :=
       && (negb (Nat.eqb (ncols d) 0) || forallb (fun c => Nat.eqb (length (c_cells c)) 0) (d_consts d))
       && str_nodupb (column_names d)
   end.
+
+Definition counts_ok (d : defn) : bool :=
+  forallb (fun c => Nat.eqb (length (c_cells c)) 0
+                    || existsb (fun c' => Z.eqb (c_val c') (c_val c) && Nat.eqb (length (c_cells c')) (ncols d))
+                               (d_consts d)) (d_consts d).
+Definition is_primary_const (d : defn) (c : const) : bool :=
+  match primary (d_consts d) (c_val c) with Some n => String.eqb n (c_name c) | None => false end.
+Definition unique_ok (d : defn) (o : opts) : bool :=
+  validate_pairs (flat_map (fun c => if is_primary_const d c
+                                     then map (fun cl => (cl_val cl, c_name c)) (parsable_cells d o c)
+                                     else []) (d_consts d)).
+Definition spec_accepts (d : defn) (o : opts) : bool :=
+  if o_notraits o then true else counts_ok d && unique_ok d o.
 
 (* ------------------------------------------------------------------ C04 *)
 Record c04_case := {
@@ -82,6 +99,7 @@ Definition parse_spec_ok (d : defn) (o : opts) (s : string) (r : res) : bool :=
 Definition c04_spec_ok (c : c04_case) : bool :=
   let d := k_def c in
   let vs := values_spec (d_consts d) in
+  if ci_collision d (k_opts c) then Nat.eqb (k_outcome c) 1 else
   Nat.eqb (k_outcome c) 0
   && list_eqb Z.eqb (k_values c) vs
   && list_eqb String.eqb (k_strvalues c) (map (string_spec d) vs)
@@ -109,7 +127,7 @@ Definition c04_model_eq (c : c04_case) : bool :=
   end.
 
 Definition judge_c04 (c : c04_case) : nat :=
-  if in_domain (k_def c) (k_opts c) && traits_in_domain (k_def c)
+  if in_domain_names (k_def c) && traits_in_domain (k_def c)
   then verdict (c04_spec_ok c) (c04_model_eq c) else 0.
 
 (* non-trivial case: duplicates present, or the binary-search variant of IsValid was emitted *)
@@ -201,6 +219,8 @@ Definition c05_doc_spec_ok (d : defn) (o : opts) (x : doc_obs) : bool :=
 Definition c05_spec_ok (c : c05_case) : bool :=
   let d := k5_def c in let o := k5_opts c in
   let vs := values_spec (d_consts d) in
+  (* a definition the documented rules reject generates nothing: vacuous *)
+  if negb (spec_accepts d o) then Nat.eqb (k5_outcome c) 1 else
   Nat.eqb (k5_outcome c) 0
   && list_eqb Z.eqb (k5_values c) vs
   && list_eqb Z.eqb (map fst (k5_enc c)) (if o_json o || o_text o || o_yaml o then vs else [])
@@ -247,23 +267,7 @@ Record c12_case := {
   k12_tparse : list (string * (Z * (dyn * res)));     (* column, e, accessor(e) as any, Parse<T>(it) *)
   k12_docs : list doc_obs }.
 
-Definition counts_ok (d : defn) : bool :=
-  forallb (fun c => Nat.eqb (length (c_cells c)) 0
-                    || existsb (fun c' => Z.eqb (c_val c') (c_val c) && Nat.eqb (length (c_cells c')) (ncols d))
-                               (d_consts d)) (d_consts d).
-Definition is_primary_const (d : defn) (c : const) : bool :=
-  match primary (d_consts d) (c_val c) with Some n => String.eqb n (c_name c) | None => false end.
-Definition value_string (d : defn) (c : const) (cl : cell) : string :=
-  match lowest_const (d_consts d) with
-  | Some l => if String.eqb (c_name l) (c_name c) then exact_string (dval (cl_val cl)) else cl_expr cl
-  | None => cl_expr cl
-  end.
-Definition unique_ok (d : defn) (o : opts) : bool :=
-  validate_pairs (flat_map (fun c => if is_primary_const d c
-                                     then map (fun cl => (value_string d c cl, c_name c)) (parsable_cells d o c)
-                                     else []) (d_consts d)).
-Definition spec_accepts (d : defn) (o : opts) : bool :=
-  if o_notraits o then true else counts_ok d && unique_ok d o.
+
 
 Definition c12_doc_spec_ok (d : defn) (o : opts) (x : doc_obs) : bool :=
   if negb (do_called x) then true
